@@ -392,7 +392,7 @@ func c07BlindsUnset(c *h.Ctx) {
 	// the first attempt and the first retry (a hand that opens later is missed, never invented)
 	// thorough: a quarter of these cases watch the whole 30 s retry loop (and end there: the engine has given up by
 	// then); the others, like quick, go on with what happens inside the retry wait
-	long := c.Thorough() && (c.Case/32)%4 == 0 && c.Case%64 == 15
+	long := c.Thorough() && (c.Case/32)%8 == 0
 	watch := 4500 * time.Millisecond
 	if long {
 		watch = 45 * time.Second
